@@ -179,7 +179,9 @@ int main(void)
 			/* constituents without any occurrence yield no stream at all: leave them out, as the file reader does */
 			echs_evstrm_t *arr = malloc(16 * sizeof(*arr)); size_t na = 0;
 			for (size_t k = 0; k < ns; k++) if (ss[k]) arr[na++] = ss[k];
-			echs_evstrm_t mux = na ? echs_evstrm_vmux(arr, na) : NULL;
+			/* every other run hands the array over as it is, empty places and all (the merge takes a copy and skips them) */
+			static unsigned holes;
+			echs_evstrm_t mux = !na ? NULL : (holes++ % 2) ? echs_evstrm_vmux(ss, ns) : echs_evstrm_vmux(arr, na);
 			if (!na) free(arr);
 			int fst = 1;
 			for (char *q = ops; *q; q++) {
